@@ -14,7 +14,7 @@ impl ResultsFormatter for HtmlFormatter {
     }
 
     fn format_element(&mut self, _: &str, record: &str, _is_last: bool) -> Option<String> {
-        Some(format!("<td>{}</td>", record))
+        Some(format!("<td>{}</td>", escape_html(record)))
     }
 
     fn row_ended(&mut self) -> Option<String> {
@@ -24,6 +24,12 @@ impl ResultsFormatter for HtmlFormatter {
     fn footer(&mut self) -> Option<String> {
         Some("</table></body></html>".to_owned())
     }
+}
+
+fn escape_html(s: &str) -> String {
+    s.replace('&', "&amp;")
+        .replace('<', "&lt;")
+        .replace('>', "&gt;")
 }
 
 #[cfg(test)]
